@@ -255,7 +255,14 @@ class Ctx:
 
     def run_driver(self, text):
         """Feed request lines to the Lean model driver; returns the list of answer lines."""
-        p = subprocess.run([DRIVER], input=text.encode(), stdout=subprocess.PIPE, stderr=subprocess.PIPE)
+        def big_stack():
+            import resource
+            try:
+                resource.setrlimit(resource.RLIMIT_STACK, (resource.RLIM_INFINITY, resource.RLIM_INFINITY))
+            except (ValueError, OSError):
+                pass
+        p = subprocess.run([DRIVER], input=text.encode(), stdout=subprocess.PIPE, stderr=subprocess.PIPE,
+                           preexec_fn=big_stack)
         if p.returncode != 0:
             self.broken.append({"kind": "correspondence", "what": "modeldriver crashed", "log_tail": p.stderr.decode()[-2000:]})
             raise Abort()
